@@ -179,11 +179,21 @@ def axiom_audit(imports, theorems):
     return res
 
 
-def run_model(lines):
+class ModelTimeout(Exception):
+    """the compiled model did not answer within the limit (a pathological case for its association lists)"""
+
+
+MODEL_TIMEOUT_S = int(os.environ.get("VERIF_MODEL_TIMEOUT", "240"))
+
+
+def run_model(lines, timeout=None):
     if not lines:
         return []
     data = "\n".join(lines) + "\n"
-    r = subprocess.run([str(HMODEL)], input=data, capture_output=True, text=True)
+    try:
+        r = subprocess.run([str(HMODEL)], input=data, capture_output=True, text=True, timeout=timeout)
+    except subprocess.TimeoutExpired:
+        raise ModelTimeout("hmodel gave no answer to %d lines within %s s" % (len(lines), timeout))
     if r.returncode != 0:
         raise Infra("hmodel exited %d: %s" % (r.returncode, r.stderr[-2000:]))
     out = r.stdout.split("\n")
@@ -388,7 +398,25 @@ def _run_batch(prop, hyp, batch, stats):
         cl = case_lines(c)
         spans.append((len(lines), len(lines) + len(cl)))
         lines += cl
-    mout = run_model(lines)
+    try:
+        mout = run_model(lines, timeout=MODEL_TIMEOUT_S)
+    except ModelTimeout:
+        # one pathological case must not stall the shard: run the cases of this batch one by one and
+        # skip (and count) the ones the model cannot answer in time
+        mout = []
+        keep = []
+        for c, (a, b) in zip(batch, spans):
+            try:
+                mout += run_model(lines[a:b], timeout=MODEL_TIMEOUT_S)
+                keep.append(c)
+            except ModelTimeout:
+                stats["features"]["skipped:model-timeout"] = stats["features"].get("skipped:model-timeout", 0) + 1
+        batch = keep
+        spans, n = [], 0
+        for c in batch:
+            k = len(case_lines(c))
+            spans.append((n, n + k))
+            n += k
     for c, (a, b) in zip(batch, spans):
         try:
             iouts, outcomes = evaluate(prop, hyp, c, mout[a:b])
